@@ -5,6 +5,7 @@ package memberlist
 import (
 	"fmt"
 	"math"
+	"net"
 	"time"
 )
 
@@ -99,6 +100,18 @@ func genC03(c *Ctx) *Plan {
 	}
 	p.P["freeze_us"] = int64(r.pick(0, 0, 100, 2000))
 	p.YieldOff = genYieldOff(r)
+	if r.chance(0.5) {
+		// a flapping victim: falsely suspected (and refuting) shortly before it really dies; old
+		// accusations from that episode - duplicated or delayed packets - still arrive at survivors
+		// while they run their own suspicion of the dead victim. They are stale and must not matter.
+		p.Ops = append(p.Ops, Op{At: ct - 200_000_000 - r.i64n(1_500_000_000), Kind: "forge", Node: victim, S: "suspect", C: int64((victim + 1) % n)})
+		for i := 0; i < r.rangeI(2, 6); i++ {
+			x := (victim + 1 + r.intn(n-1)) % n
+			from := (victim + 1 + r.intn(n-1)) % n
+			p.Ops = append(p.Ops, Op{At: ct + r.i64n(int64(detectBound(p.Cfg, n))/2+1), Kind: "forge", Node: x, S: []string{"dead", "dead", "suspect"}[r.intn(3)], A: int64(r.pick(1, 1, 2)), C: int64(from)})
+		}
+		p.P["flap"] = 1
+	}
 	p.Cfg.AliveDel = r.chance(0.5) // an accepting AliveDelegate: a preemption point if it is ever called without the node lock
 	return p
 }
@@ -389,6 +402,33 @@ func execC03(c *Ctx) {
 	if p.Cfg.IndirectChecks == 0 {
 		cx.cl.net.tapFn = ps.onTap
 		cx.mons = append(cx.mons, ps)
+	}
+	cx.customOp = func(rec *opRec) bool {
+		op := rec.Op
+		if op.Kind != "forge" {
+			return false
+		}
+		V := cx.node(victim)
+		X, from := cx.node(op.Node), cx.node(int(op.C))
+		if V == nil || V.m == nil || X == nil || X.m == nil || !X.running() || from == nil {
+			return true
+		}
+		cur := int64(V.m.incarnation.Load())
+		inc := cur - op.A // op.A = 0 for the accusation the victim refutes, >= 1 for stale leftovers
+		if inc < 1 {
+			return true
+		}
+		var raw []byte
+		if op.S == "suspect" {
+			raw = mustEncode(suspectMsg, &suspect{Incarnation: uint32(inc), Node: V.name, From: from.name})
+		} else {
+			raw = mustEncode(deadMsg, &dead{Incarnation: uint32(inc), Node: V.name, From: from.name})
+		}
+		X.ep.deliverPacket(wrapPacketFor(X, raw, false, false), &net.UDPAddr{IP: from.ip, Port: from.port})
+		if op.A >= 1 {
+			c.Reach("stale_accusation_delivered_during_detection")
+		}
+		return true
 	}
 	crashAt := time.Duration(p.param("crash_at", 0))
 	end := crashAt + mon.bound + 2*time.Second
